@@ -46,6 +46,11 @@ POOL = [
     # neighbouring ints beyond 2**53 (distinct as ints, the same number after conversion to a float)
     ("9007199254740992", "int", 2**53, "Int"), ("9007199254740993", "int", 2**53 + 1, "Int"), ("9223372036854775806", "int", 2**63 - 2, "Int"),
     ("(-9223372036854775806)", "int", -(2**63 - 2), "Int"), ("P.new(9007199254740993)", "int", 2**53 + 1, "P"), ("P.new(9007199254740994)", "int", 2**53 + 2, "P"),
+    # values a built-in produced, equal to literals of the pool
+    ('("" + "a")', "str", "a", "Str"), ('"A".lc', "str", "a", "Str"), ('["a", "b"].join("")', "str", "ab", "Str"), ("(0 + 1)", "int", 1, "Int"), ("(3 - 1)", "int", 2, "Int"),
+    ("(0.5 + 1.0)", "float", 1.5, "Float"), ("(4.0 / 2.0)", "float", 2.0, "Float"), ('"1.5".F', "float", 1.5, "Float"), ('"2".I', "int", 2, "Int"), ("[1, 2].len", "int", 2, "Int"),
+    ("([1] + [2])", "none", None, ""), ("(1:3).A", "none", None, ""), ("JSON.dec(`[1, 2]`)", "none", None, ""), ("JSON.dec(`{\"a\": 1}`)", "none", None, ""), ("[['a, 1]].O", "none", None, ""),
+    ("[[1, 2]].M", "none", None, ""), ("{a: 1}.items.O", "none", None, ""), ("%{1: 2}.items.M", "none", None, ""), ("JSON.dec(`null`)", "none", None, ""), ("JSON.dec(`true`)", "int", 1, "bool"),
 ]
 OPS = [("eq", "=="), ("ne", "!="), ("lt", "<"), ("le", "<="), ("gt", ">"), ("ge", ">="), ("cmp", "<=>")]
 
